@@ -1209,6 +1209,8 @@ def _judge_star(args):
 def run(cs, harness_exe, jobs=16):
     """answer all requests with the implementation, judge in parallel. -> violations"""
     import vlib
+    if not cs:
+        return []
     lines = [l for c in cs for l in c["reqs"]]
     rc, resp, err = vlib.run_lines_parallel(harness_exe, lines, 8)
     if len(resp) != len(lines):
